@@ -232,12 +232,26 @@ def gen_model(rng, whole_seconds: bool, big_ok: bool = True) -> dict:
         hdrs = [[_blob(rng, False) or rng.randbytes(rng.randint(0, 9)).hex(), _blob(rng, False)] for _ in range(rng.choice((0, 0, 1, 2, 4)))]
         recs.append({"attr": rng.randint(-128, 127), "ts": tss[i], "off": offs[i], "key": _blob(rng, False),
                      "val": _blob(rng, big_ok), "hdrs": hdrs})
+    if rng.random() < 0.09:
+        # LogAppendTime batch (attributes bit 3): the broker overwrote max_timestamp
+        # with its append time and left the records' own (create-time) deltas
+        # untouched, so max_timestamp may be LOWER than a record timestamp
+        attrs_extra = 8
+        hi_ms = max(tss)
+        if rng.random() < 0.25 and hi_ms // 1000 >= 1:
+            max_ts = rng.randrange(0, hi_ms // 1000)  # append clock far behind the producers' clocks
+        elif hi_ms - 1 > hi_ms // 1000 + 1:
+            max_ts = rng.randrange(hi_ms // 1000 + 1, hi_ms)
+        if whole_seconds:
+            max_ts -= max_ts % 1000
+    else:
+        attrs_extra = 0
     if rng.random() < 0.07:
         # empty batch: a broker keeps the batch header when compaction or an
         # aborted transaction removed every record (record count 0)
         recs = []
     return {"base_off": base_off, "ple": rng.choice((0, -1, 1, rng.randint(-(2**31), 2**31 - 1))),
-            "attrs": rng.randint(-(2**15), 2**15 - 1) & ~7, "lod": lod,
+            "attrs": (rng.randint(-(2**15), 2**15 - 1) & ~15) | attrs_extra, "lod": lod,
             "base_ts": base_ts, "max_ts": max_ts, "pid": rng.choice((-1, 0, rng.randint(0, 2**63 - 1))),
             "pep": rng.choice((-1, 0, rng.randint(0, 2**15 - 1))), "bseq": rng.choice((-1, 0, rng.randint(0, 2**31 - 1))),
             "records": recs}
